@@ -1,29 +1,45 @@
 #!/bin/bash
-# Builds the correspondence driver from /repo's CURRENT WORKING TREE with hooks (tag verif) enabled.
-# Everything is injected through a build overlay: the driver's main package appears as /repo/verifdrive,
+# Builds the correspondence driver from the repository's CURRENT WORKING TREE with hooks (tag verif) enabled.
+#   build.sh            -> bin/drive        (all properties' ops; development)
+#   build.sh C07        -> bin/drive-C07    (only the shared files, c07*.go, and the files of the properties named in
+#                                            checks/C07.json "go_deps"; likewise only those hook files) — so that a source
+#                                            change which stops ANOTHER property's accessors from compiling cannot make
+#                                            this property's check fail.
+# Everything is injected through a build overlay: the driver's main package appears as $REPO_ROOT/verifdrive,
 # accessor files appear inside the packages they need to reach, and libp2p's defaults.go is replaced by a
 # copy without the QUIC transport (quic-go v0.29.1 does not compile with the installed go1.23).
 set -e
 V=${VERIF_ROOT:-/verif}
 R=${REPO_ROOT:-/repo}
 H=$V/harness
+PID=$1
 . $H/env.sh
 mkdir -p $H/overlay $H/bin
 LIBP2P=/root/go/pkg/mod/github.com/libp2p/go-libp2p@v0.23.4/defaults.go
-sed -e '/p2p\/transport\/quic"/d' -e '/Transport(quic.NewTransport),/d' $LIBP2P > $H/overlay/libp2p_defaults.go
-python3 - <<PY
-import json, os
-H="$H"
-R="$R"
+[ -s $H/overlay/libp2p_defaults.go ] || sed -e '/p2p\/transport\/quic"/d' -e '/Transport(quic.NewTransport),/d' $LIBP2P > $H/overlay/libp2p_defaults.go
+OJ=$H/overlay/o${PID:+-$PID}.json
+python3 - "$PID" "$OJ" <<PY
+import json, os, re, sys
+H="$H"; R="$R"; V="$V"
+pid=sys.argv[1]; oj=sys.argv[2]
+keep=None
+if pid:
+    keep={pid.lower()}
+    try: keep |= {d.lower() for d in json.load(open(f"{V}/checks/{pid}.json")).get("go_deps",[])}
+    except Exception: pass
+def wanted(fn):
+    m=re.match(r"(?:zz_verif_)?(c\d\d)", fn)
+    if not m: return True            # shared file
+    return keep is None or m.group(1) in keep
 rep={"$LIBP2P": H+"/overlay/libp2p_defaults.go"}
 for f in sorted(os.listdir(H+"/drive")):
-    if f.endswith(".go"): rep[R+"/verifdrive/"+f]=H+"/drive/"+f
+    if f.endswith(".go") and wanted(f): rep[R+"/verifdrive/"+f]=H+"/drive/"+f
 for root,_,files in os.walk(H+"/hooks"):
     for f in files:
-        if f.endswith(".go"):
+        if f.endswith(".go") and wanted(f):
             rel=os.path.relpath(os.path.join(root,f), H+"/hooks")
             rep[R+"/"+rel]=os.path.join(root,f)
-json.dump({"Replace":rep}, open(H+"/overlay/o.json","w"), indent=1)
+json.dump({"Replace":rep}, open(oj,"w"), indent=1)
 PY
 cd $R
-go build -overlay=$H/overlay/o.json -tags verif "$@" -o $H/bin/drive ./verifdrive
+go build -overlay=$OJ -tags verif -o $H/bin/drive${PID:+-$PID} ./verifdrive
